@@ -7,14 +7,19 @@
    binary64 instance [geoA FA] is what the correspondence compares with the C++, [geoA RA] is the
    real-number reading.
 
+   [fx] is the model's switch for deleteSelectedNodes (false: ToggleSelect, the code before
+   findings/C16-F1-fix.diff; true: the repaired code).
+
    What the faithful model does NOT satisfy is stated as [_refuted] theorems with the witness
    command sequence (replayed on the real code by tools/props/c16.py):
-   - a segment that is selected while one of its end points is deleted by
-     mi_deleteselectednodes survives with a stale index (F1);
+   - (fx = false) a segment that is selected while one of its end points is deleted by
+     mi_deleteselectednodes survives with a stale index (F1); with fx = true the invariant holds
+     for all sequences (C16_inv_reachable_repaired);
    - a new point within the tolerance of two segments with a common end point splits both and
      the drawing then contains the same segment twice (F2);
    - "no two points closer than the snap tolerance" is not an invariant, the tolerance being
-     recomputed from the bounding box by every command (F3).
+     recomputed from the bounding box by every command (F3); when all points handed to enforcePSLG
+     coincide the tolerance is 0 and coincident points stay (F6).
    Not proved: planarity proper (no crossing, no point inside a segment, no label on a line) —
    these are metric statements about the oracles and are checked on the implementation by the
    exact-rational oracle only; termination of the recursive split of addSegment (fuel). *)
@@ -31,9 +36,9 @@ Print Assumptions C16_inv_init.
 
 (* every command preserves the invariant; mi_deleteselectednodes needs [del_guard]: no selected
    segment has a selected end point (it always holds inside mi_deleteselected) *)
-Theorem C16_inv_step : forall (F : Type) (G : Geo F) (fuel : nat) (st : @drawing F) (o : @op F),
-  Inv2 st -> op_guard G st o ->
-  Inv2 (step G fuel st o) /\ (d_dsplit st = true -> d_dsplit (step G fuel st o) = true).
+Theorem C16_inv_step : forall (F : Type) (G : Geo F) (fx : bool) (fuel : nat) (st : @drawing F) (o : @op F),
+  Inv2 st -> op_guard G fx st o ->
+  Inv2 (step G fx fuel st o) /\ (d_dsplit st = true -> d_dsplit (step G fx fuel st o) = true).
 Proof. exact (@step_Inv2). Qed.
 Print Assumptions C16_inv_step.
 
@@ -47,46 +52,55 @@ Print Assumptions C16_enforcePSLG_establishes_invariant.
 (* all sequences, no length bound.  _partial: only sequences in which mi_deleteselectednodes is
    never issued while a selected segment has a selected end point (see the _refuted theorem) *)
 Theorem C16_segments_join_distinct_existing_points_partial :
-  forall (F : Type) (G : Geo F) (fuel : nat) (ops : list (@op F)),
-  guarded G fuel empty ops -> WF (run G fuel ops empty).
+  forall (F : Type) (G : Geo F) (fx : bool) (fuel : nat) (ops : list (@op F)),
+  guarded G fx fuel empty ops -> WF (run G fx fuel ops empty).
 Proof. exact (@wf_reachable). Qed.
 Print Assumptions C16_segments_join_distinct_existing_points_partial.
 
 Theorem C16_segments_join_distinct_existing_points_without_deleteselectednodes :
-  forall (F : Type) (G : Geo F) (fuel : nat) (ops : list (@op F)),
-  forallb (fun o => negb (is_delnodes o)) ops = true -> WF (run G fuel ops empty).
-Proof. intros F G fuel ops H. apply wf_reachable, guarded_no_delnodes, H. Qed.
+  forall (F : Type) (G : Geo F) (fx : bool) (fuel : nat) (ops : list (@op F)),
+  forallb (fun o => negb (is_delnodes o)) ops = true -> WF (run G fx fuel ops empty).
+Proof. intros F G fx fuel ops H. apply wf_reachable, guarded_no_delnodes, H. Qed.
 Print Assumptions C16_segments_join_distinct_existing_points_without_deleteselectednodes.
 
 Theorem C16_deleteselectednodes_keeps_selected_segment_refuted :
-  exists ops : list (@op float), ~ WF (run (geoA FA) FUEL ops empty).
+  exists ops : list (@op float), ~ WF (run (geoA FA) false FUEL ops empty).
 Proof. exact wf_unguarded_refuted. Qed.
 Print Assumptions C16_deleteselectednodes_keeps_selected_segment_refuted.
 
+(* with the one-line repair of deleteSelectedNodes (findings/C16-F1-fix.diff; fx = true in the model) the
+   invariant holds for ALL sequences, without any guard *)
+Theorem C16_inv_reachable_repaired :
+  forall (F : Type) (G : Geo F) (fuel : nat) (ops : list (@op F)),
+  WF (run G true fuel ops empty) /\
+  (d_dsplit (run G true fuel ops empty) = false -> NoDupSeg (d_segs (run G true fuel ops empty))).
+Proof. intros. apply inv_reachable_repaired. reflexivity. Qed.
+Print Assumptions C16_inv_reachable_repaired.
+
 (* no duplicated segment in any reachable drawing in which the double-split flag did not fire *)
 Theorem C16_no_duplicate_segment_partial :
-  forall (F : Type) (G : Geo F) (fuel : nat) (ops : list (@op F)),
-  guarded G fuel empty ops -> d_dsplit (run G fuel ops empty) = false ->
-  NoDupSeg (d_segs (run G fuel ops empty)).
+  forall (F : Type) (G : Geo F) (fx : bool) (fuel : nat) (ops : list (@op F)),
+  guarded G fx fuel empty ops -> d_dsplit (run G fx fuel ops empty) = false ->
+  NoDupSeg (d_segs (run G fx fuel ops empty)).
 Proof. exact (@nodup_reachable). Qed.
 Print Assumptions C16_no_duplicate_segment_partial.
 
 Theorem C16_no_duplicate_segment_refuted :
   exists ops : list (@op float),
-    guarded (geoA FA) FUEL empty ops /\ ~ NoDupSeg (d_segs (run (geoA FA) FUEL ops empty)).
+    guarded (geoA FA) false FUEL empty ops /\ ~ NoDupSeg (d_segs (run (geoA FA) false FUEL ops empty)).
 Proof. exact nodup_unflagged_refuted. Qed.
 Print Assumptions C16_no_duplicate_segment_refuted.
 
 (* -- nothing remains selected after a completed command ---------------------------------------- *)
 Theorem C16_commands_end_with_empty_selection :
-  forall (F : Type) (G : Geo F) (fuel : nat) (st : @drawing F) (o : @op F),
-  clears_selection G o = true -> nosel (step G fuel st o).
+  forall (F : Type) (G : Geo F) (fx : bool) (fuel : nat) (st : @drawing F) (o : @op F),
+  clears_selection G o = true -> nosel (step G fx fuel st o).
 Proof. exact (@step_clears_selection). Qed.
 Print Assumptions C16_commands_end_with_empty_selection.
 
 Theorem C16_addsegment_ends_with_empty_selection_or_no_change :
-  forall (F : Type) (G : Geo F) (fuel : nat) (st : @drawing F) (x0 y0 x1 y1 : F),
-  step G (S fuel) st (OAddSegment x0 y0 x1 y1) = st \/ nosel (step G (S fuel) st (OAddSegment x0 y0 x1 y1)).
+  forall (F : Type) (G : Geo F) (fx : bool) (fuel : nat) (st : @drawing F) (x0 y0 x1 y1 : F),
+  step G fx (S fuel) st (OAddSegment x0 y0 x1 y1) = st \/ nosel (step G fx (S fuel) st (OAddSegment x0 y0 x1 y1)).
 Proof. exact (@addsegment_clears_selection). Qed.
 Print Assumptions C16_addsegment_ends_with_empty_selection_or_no_change.
 
@@ -133,29 +147,29 @@ Print Assumptions C16_pairwise_apart_real_reading.
 
 Theorem C16_snap_tolerance_global_refuted :
   exists ops : list (@op float),
-    guarded (geoA FA) FUEL empty ops /\ snap_ok (run (geoA FA) FUEL ops empty) = false.
+    guarded (geoA FA) false FUEL empty ops /\ snap_ok (run (geoA FA) false FUEL ops empty) = false.
 Proof. exact snap_tolerance_global_refuted. Qed.
 Print Assumptions C16_snap_tolerance_global_refuted.
 
 (* the case excluded above (tolerance 0: all points handed to enforcePSLG coincide) does happen *)
 Theorem C16_coincident_points_refuted :
   exists ops : list (@op float),
-    guarded (geoA FA) FUEL empty ops /\ (distinct_pts (run (geoA FA) FUEL ops empty) = false) /\
-    (length (d_segs (run (geoA FA) FUEL ops empty)) = 0).
+    guarded (geoA FA) false FUEL empty ops /\ (distinct_pts (run (geoA FA) false FUEL ops empty) = false) /\
+    (length (d_segs (run (geoA FA) false FUEL ops empty)) = 0).
 Proof. exact coincident_points_refuted. Qed.
 Print Assumptions C16_coincident_points_refuted.
 
 (* -- deletion renumbers consistently --------------------------------------------------------------- *)
 Theorem C16_delete_keeps_exactly_the_unselected_points :
-  forall (F : Type) (G : Geo F) (st : @drawing F),
-  d_nodes (deleteSelectedNodes G st) = filter unsel (d_nodes st).
+  forall (F : Type) (G : Geo F) (fx : bool) (st : @drawing F),
+  d_nodes (deleteSelectedNodes G fx st) = filter unsel (d_nodes st).
 Proof. exact (@deleteSelectedNodes_nodes). Qed.
 Print Assumptions C16_delete_keeps_exactly_the_unselected_points.
 
 Theorem C16_delete_renumbers_consistently :
-  forall (F : Type) (G : Geo F) (st : @drawing F),
+  forall (F : Type) (G : Geo F) (fx : bool) (st : @drawing F),
   segs_unselected st ->
-  cview G (deleteSelectedNodes G st) = filter ends_unselected (cview G st).
+  cview G (deleteSelectedNodes G fx st) = filter ends_unselected (cview G st).
 Proof. exact (@delete_renumbers_consistently). Qed.
 Print Assumptions C16_delete_renumbers_consistently.
 
@@ -218,23 +232,26 @@ Print Assumptions C16_deleteSelectedSegments_lengths.
 (* a reachable drawing (binary64 reading) with 6 points and 5 segments built by add/select/copy:
    the guard holds along the whole sequence, the fuel is not exhausted, the flag did not fire *)
 Example C16_hypotheses_satisfiable :
-  guarded (geoA FA) FUEL empty ops_ex /\
-  length (d_segs (run (geoA FA) FUEL ops_ex empty)) = 5 /\
-  length (d_nodes (run (geoA FA) FUEL ops_ex empty)) = 6 /\
-  d_dsplit (run (geoA FA) FUEL ops_ex empty) = false /\ d_oof (run (geoA FA) FUEL ops_ex empty) = false.
+  guarded (geoA FA) false FUEL empty ops_ex /\
+  length (d_segs (run (geoA FA) false FUEL ops_ex empty)) = 5 /\
+  length (d_nodes (run (geoA FA) false FUEL ops_ex empty)) = 6 /\
+  d_dsplit (run (geoA FA) false FUEL ops_ex empty) = false /\ d_oof (run (geoA FA) false FUEL ops_ex empty) = false.
 Proof. exact example_reachable. Qed.
 
 Example C16_hypotheses_satisfiable_2 :
-  let st := run (geoA FA) FUEL ops_ex empty in
+  let st := run (geoA FA) false FUEL ops_ex empty in
   WF st /\ segs_unselected st /\ sel_valid st /\ g_is0 (geoA FA) (auto_tol (geoA FA) (d_nodes st)) = false.
 Proof. exact example_hypotheses. Qed.
 
 (* the witnesses of the refutations, as the model leaves them *)
+Example C16_F1_witness_repaired :
+  d_segs (run (geoA FA) true FUEL ops_F1 empty) = [] /\ length (d_nodes (run (geoA FA) true FUEL ops_F1 empty)) = 1.
+Proof. exact F1_repaired_state. Qed.
 Example C16_F1_witness_state :
-  map (fun s => (s0 s, s1 s)) (d_segs (run (geoA FA) FUEL ops_F1 empty)) = [(0, 0)] /\
-  length (d_nodes (run (geoA FA) FUEL ops_F1 empty)) = 1.
+  map (fun s => (s0 s, s1 s)) (d_segs (run (geoA FA) false FUEL ops_F1 empty)) = [(0, 0)] /\
+  length (d_nodes (run (geoA FA) false FUEL ops_F1 empty)) = 1.
 Proof. exact F1_final_state. Qed.
 Example C16_F2_witness_state :
-  map (fun s => (s0 s, s1 s)) (d_segs (run (geoA FA) FUEL ops_F2 empty)) = [(0, 3); (0, 3); (3, 1); (3, 2)] /\
-  d_dsplit (run (geoA FA) FUEL ops_F2 empty) = true.
+  map (fun s => (s0 s, s1 s)) (d_segs (run (geoA FA) false FUEL ops_F2 empty)) = [(0, 3); (0, 3); (3, 1); (3, 2)] /\
+  d_dsplit (run (geoA FA) false FUEL ops_F2 empty) = true.
 Proof. exact F2_final_state. Qed.
